@@ -1,5 +1,6 @@
 // Workloads for C01 (forward operators) and C16 (scalar set algebra).
 #include "common.h"
+#include "expr_io.h"
 using namespace ibex; using namespace vh; using namespace std;
 
 static long emitted = 0;
@@ -195,6 +196,54 @@ int main(int argc, char** argv) {
       IntervalVector w(d); for (int k = 0; k < d; k++) { double a = rand_double(r); if (!(fabs(a) < 1e300)) a = 1.0; double wd = r.coin(30) ? 0 : std::ldexp(1.0, r.range(-45, 5)); w[k] = Interval(a, a + wd); }
       bsc_ops(r, w);
       bisect_ops(r, rand_itv(r));
+    }
+  } else if (wl == "c01vec") {
+    // IntervalVector / IntervalMatrix operators (no empty operand: covered by the scalar workload)
+    auto ritv = [&]() { Interval x; do { x = (r.coin(70)) ? Interval(r.range(-40, 40) / 8.0).inflate(r.coin(30) ? 0 : r.range(0, 24) / 8.0) : rand_itv(r); } while (x.is_empty()); return x; };
+    auto rvec = [&](int n) { IntervalVector v(n); for (int i = 0; i < n; i++) v[i] = ritv(); return v; };
+    auto rmat = [&](int a, int b) { IntervalMatrix m(a, b); for (int i = 0; i < a; i++) for (int j = 0; j < b; j++) m[i][j] = ritv(); return m; };
+    auto mid_vec = [&](const IntervalVector& v) { Vector p(v.size()); for (int i = 0; i < v.size(); i++) { double c = v[i].is_unbounded() ? (v[i].lb() == NEG_INFINITY ? (v[i].ub() == POS_INFINITY ? 0.0 : v[i].ub()) : v[i].lb()) : v[i].mid(); p[i] = c; } return p; };
+    auto mid_mat = [&](const IntervalMatrix& m) { Matrix p(m.nb_rows(), m.nb_cols()); for (int i = 0; i < m.nb_rows(); i++) p.set_row(i, mid_vec(m.row(i))); return p; };
+    for (long i = 0; i < n; i++) {
+      int a = r.range(1, 4), b = r.range(1, 4), c = r.range(1, 4);
+      IntervalVector x = rvec(b), y = rvec(b), z = rvec(a); IntervalMatrix A = rmat(a, b), B = rmat(b, c), C = rmat(a, b); Interval s = ritv();
+      string xs = vh::mtok(x), ys = vh::mtok(y), xr = vh::mtok(x, true), zs = vh::mtok(z), zr = vh::mtok(z, true), As = vh::mtok(A), Bs = vh::mtok(B), Cs = vh::mtok(C), ss = vh::mtok(s);
+      EMIT("vecop add %s %s => %s\n", xs.c_str(), ys.c_str(), vh::mtok(x + y).c_str()); rm("vec+");
+      EMIT("vecop sub %s %s => %s\n", xs.c_str(), ys.c_str(), vh::mtok(x - y).c_str()); rm("vec-");
+      EMIT("vecop neg %s - => %s\n", xs.c_str(), vh::mtok(-x).c_str());
+      EMIT("vecop scale %s %s => %s\n", ss.c_str(), xs.c_str(), vh::mtok(s * x).c_str()); rm("s*vec");
+      EMIT("vecop mul %s %s => %s\n", xr.c_str(), ys.c_str(), vh::mtok(x * y).c_str()); rm("dot");
+      EMIT("vecop had %s %s => %s\n", xs.c_str(), ys.c_str(), vh::mtok(hadamard_product(x, y)).c_str());
+      EMIT("vecop mul %s %s => %s\n", zs.c_str(), xr.c_str(), vh::mtok(outer_product(z, x)).c_str()); rm("outer");
+      EMIT("vecop add %s %s => %s\n", As.c_str(), Cs.c_str(), vh::mtok(A + C).c_str());
+      EMIT("vecop sub %s %s => %s\n", As.c_str(), Cs.c_str(), vh::mtok(A - C).c_str());
+      EMIT("vecop neg %s - => %s\n", As.c_str(), vh::mtok(-A).c_str());
+      EMIT("vecop scale %s %s => %s\n", ss.c_str(), As.c_str(), vh::mtok(s * A).c_str()); rm("s*mat");
+      EMIT("vecop mul %s %s => %s\n", As.c_str(), xs.c_str(), vh::mtok(A * x).c_str()); rm("mat*vec");
+      EMIT("vecop mul %s %s => %s\n", zr.c_str(), As.c_str(), vh::mtok(z * A, true).c_str()); rm("vec*mat");
+      EMIT("vecop mul %s %s => %s\n", As.c_str(), Bs.c_str(), vh::mtok(A * B).c_str()); rm("mat*mat");
+      EMIT("vecop trans %s - => %s\n", As.c_str(), vh::mtok(A.transpose()).c_str());
+      // mixed real / interval operands
+      { Vector xm = mid_vec(x); Matrix Am = mid_mat(A); double sm = s.is_unbounded() ? 1.5 : s.mid();
+        string xms = vh::mtok(IntervalVector(xm)), xmr = vh::mtok(IntervalVector(xm), true), Ams = vh::mtok(IntervalMatrix(Am)), sms = vh::mtok(Interval(sm));
+        EMIT("vecop mul %s %s => %s\n", xmr.c_str(), ys.c_str(), vh::mtok(xm * y).c_str());
+        EMIT("vecop mul %s %s => %s\n", xr.c_str(), vh::mtok(IntervalVector(mid_vec(y))).c_str(), vh::mtok(x * mid_vec(y)).c_str());
+        EMIT("vecop mul %s %s => %s\n", Ams.c_str(), xs.c_str(), vh::mtok(Am * x).c_str());
+        EMIT("vecop mul %s %s => %s\n", As.c_str(), xms.c_str(), vh::mtok(A * xm).c_str());
+        EMIT("vecop mul %s %s => %s\n", Ams.c_str(), Bs.c_str(), vh::mtok(Am * B).c_str());
+        EMIT("vecop mul %s %s => %s\n", As.c_str(), vh::mtok(IntervalMatrix(mid_mat(B))).c_str(), vh::mtok(A * mid_mat(B)).c_str());
+        EMIT("vecop scale %s %s => %s\n", sms.c_str(), xs.c_str(), vh::mtok(sm * x).c_str());
+        EMIT("vecop scale %s %s => %s\n", sms.c_str(), As.c_str(), vh::mtok(sm * A).c_str());
+        EMIT("vecop add %s %s => %s\n", xms.c_str(), ys.c_str(), vh::mtok(xm + y).c_str());
+        EMIT("vecop sub %s %s => %s\n", xs.c_str(), vh::mtok(IntervalVector(mid_vec(y))).c_str(), vh::mtok(x - mid_vec(y)).c_str());
+        rm("mixed"); }
+      // in-place variants
+      { IntervalVector t = x; t += y; EMIT("vecop add %s %s => %s\n", xs.c_str(), ys.c_str(), vh::mtok(t).c_str()); t = x; t -= y; EMIT("vecop sub %s %s => %s\n", xs.c_str(), ys.c_str(), vh::mtok(t).c_str());
+        t = x; t *= s; EMIT("vecop scale %s %s => %s\n", ss.c_str(), xs.c_str(), vh::mtok(t).c_str());
+        IntervalMatrix T = A; T += C; EMIT("vecop add %s %s => %s\n", As.c_str(), Cs.c_str(), vh::mtok(T).c_str()); T = A; T -= C; EMIT("vecop sub %s %s => %s\n", As.c_str(), Cs.c_str(), vh::mtok(T).c_str());
+        T = A; T *= s; EMIT("vecop scale %s %s => %s\n", ss.c_str(), As.c_str(), vh::mtok(T).c_str());
+        if (b == c) { T = A; T *= B; EMIT("vecop mul %s %s => %s\n", As.c_str(), Bs.c_str(), vh::mtok(T).c_str()); }
+        rm("in-place"); }
     }
   } else { fprintf(stderr, "unknown workload\n"); return 2; }
   fprintf(stderr, "emitted %ld\n", emitted);
